@@ -316,6 +316,32 @@ def handle (op : String) (j : Json) : Except String Json := do
       ("enumerate", Json.arr ((enumerate xs).map (fun p => Json.arr #[intJ p.1, intJ p.2])).toArray),
       ("arrayrows", excJ4 (optJ a2J) (npArrayRowsE tuples))])
   -- --- end T15
+  -- --- T16: 2-argument max / unary minus / math.log's domain error on numeric values, `int(s, 2)`, the union of two lists as a set, the
+  -- elementwise numpy operations of the kernels (see the T16 block of OQ/Exec/Py.lean)
+  | "t16_num" =>
+    let a ← ratOfJson (← field j "a"); let b ← ratOfJson (← field j "b")
+    pure (Json.mkObj [("max", ratToJson (maxNum a b)), ("neg", ratToJson (negNum a)),
+                      ("log", excJ4 ratToJson (mathLogE (fun (x : Rat) => x) a))])
+  | "t16_int2" => pure (excJ4 intJ (intBase2E (← strOf (← field j "s"))))
+  | "t16_set" =>
+    let xs ← listOfJson intOfJson (← field j "xs"); let ys ← listOfJson intOfJson (← field j "ys")
+    pure (intsToJson (setUnion (setOfList xs) ys))
+  | "t16_np" =>
+    let x ← listOfJson intOfJson (← field j "x"); let y ← listOfJson intOfJson (← field j "y")
+    let c ← ratOfJson (← field j "c"); let k ← intOfJson (← field j "k")
+    let u ← listOfJson ratOfJson (← field j "u"); let v ← listOfJson ratOfJson (← field j "v")
+    let matI (m : List (List Int)) : Json := Json.arr ((m.map intsToJson).toArray)
+    let vecR (r : List Rat) : Json := Json.arr ((r.map ratToJson).toArray)
+    let matR (m : List (List Rat)) : Json := Json.arr ((m.map vecR).toArray)
+    let o := npOuterSub x y
+    let e : NpMat Rat := npAsFloat2 (npPow2 (npAbs2 o) 2)
+    let sc := npScale2 c e
+    let sq : NpMat Rat := u.map (fun _ => u)
+    pure (Json.mkObj [("outer", matI o), ("abs", matI (npAbs2 o)), ("pow", matI (npPow2 (npAbs2 o) 2)), ("float", matR e),
+                      ("scale", matR sc), ("map", matR (npMap2 (fun t => t * t + 1) sc)),
+                      ("zeros", matR (npZerosLike2 (ν := Rat) e)), ("add", matR (npAdd2 e sc)), ("div", matR (npDivInt2 sc k)),
+                      ("sub", vecR (npSub1 u v)), ("dot", ratToJson (npDot1 u v)), ("matvec", vecR (npMatVec sq v))])
+  -- --- end T16
   | _ => throw s!"unknown prelude op {op}"
 
 end OQ.PY.Driver
